@@ -77,8 +77,11 @@ fn check_trace(s: &Stream, out: &RunOut, fault_at: Option<usize>) -> Result<(u64
                         format!("read #{} issued although {} of {} due responses have not been written", reads, due.len() - k, due.len()),
                     ));
                 }
-                if k > due.len() {
-                    return Err(("response-written-before-its-message-arrived".into(), format!("at read #{}: {} responses written, {} due", reads, k, due.len())));
+                // upper bound: nothing can be answered before it has (at least partly) arrived
+                let started = s.ends.iter().enumerate().filter(|(i, _)| delivered > if *i == 0 { 0 } else { s.ends[*i - 1] }).count();
+                let may: usize = s.resps[..started.min(s.resps.len())].iter().map(|m| m.len()).sum();
+                if k > may {
+                    return Err(("response-written-before-its-message-arrived".into(), format!("at read #{}: {} responses written, at most {} can have been asked for", reads, k, may)));
                 }
                 if flushed_upto < written.len() {
                     return Err(("read-before-flush".into(), format!("read #{} issued with {} written bytes not flushed", reads, written.len() - flushed_upto)));
